@@ -29,7 +29,10 @@ Numerical noise: the relations are exact linear relations between the independen
 returned rows are sums C_i y_i that can cancel by many orders of magnitude (dynamic liquid layers at
 low frequency are documented as unstable; deep layers hold values ~1e-160).  Every case is therefore
 solved a second time with a 30x tighter tolerance and |y - y'| at the slices involved - the measured
-indeterminacy of the numbers themselves - is added to each tolerance with factor NOISE_FACTOR = 3.
+indeterminacy of the numbers themselves - is added to each tolerance with factor NOISE_FACTOR = 30; where that indeterminacy exceeds 1e-4 of the row's scale the
+numbers are numerically meaningless (stacks with a dynamic liquid layer at low frequency - the regime the solver itself
+warns about: k = -0.91, -0.48, -0.87 at rtol 1e-6, 3e-8, 1e-11 - found by the thorough tier) and the clause is not judged
+there (label `skipped:ill_conditioned`).
 (Observed on the unchanged tree: jump 4.5e-45 where the two solves differ by 2e-39; in well-conditioned
 stacks the noise term is ~1e-9 of the scale, a wrong row/coefficient gives O(1).)
 
@@ -62,7 +65,8 @@ CASES = {'quick': 480, 'thorough': 60000}
 SHARDS = {'quick': 16, 'thorough': 16}
 SURF_TOL = 1e-6
 IFACE_TOL = 1e-6
-NOISE_FACTOR = 3.0
+NOISE_FACTOR = 30.0
+ILL = 1e-4        # a clause is not judged where the two solves differ by more than this fraction of the scale
 RULE = ('Hypothesis draws a stack (1-5 layers, 8 kinds, constructive bottom/surface choice), per-layer thickness weights, '
         'densities (decreasing outward), complex shear, bulk modulus, slices 5..40, R, r0, l 2..6, frequency, family, '
         'solve_for sequence (1-5 of tidal/loading/free), nondim, integrator, rtol. Non-trivial = (>= 2 layers with a '
@@ -165,6 +169,9 @@ def evaluate(case):
             for row, bi, nm in ((1, b[0], 'y2'), (3, b[1], 'y4'), (5, b[2], 'y6')):
                 scale = float(np.nanmax(np.abs(y[row, s0:]))) + abs(bi)
                 r = abs(y[row, -1] - bi)
+                if nz[row, -1] > ILL * scale:
+                    c.label('skipped:ill_conditioned')
+                    continue
                 c.check(np.isfinite(r) and r <= SURF_TOL * scale + NOISE_FACTOR * nz[row, -1],
                         {'clause': 'surface', 'type': name, 'row': nm, 'surface': names[-1]},
                         '%s(R)=%r, prescribed %r, residual %.3e, scale %.3e' % (nm, complex(y[row, -1]), bi, r, scale))
@@ -199,15 +206,18 @@ def evaluate(case):
                 rows = (0, 1, 4, 5)
             for row in rows:
                 d = abs(y[row, a] - y[row, bidx])
+                if nz[row, a] + nz[row, bidx] > ILL * scale(row):
+                    c.label('skipped:ill_conditioned')
+                    continue
                 c.check(np.isfinite(d) and d <= IFACE_TOL * scale(row) + NOISE_FACTOR * (nz[row, a] + nz[row, bidx]),
                         {'clause': 'continuity', 'pair': pair, 'row': 'y%d' % (row + 1)},
                         'type %s interface %d (%s): y%d jumps %r -> %r (scale %.3e)'
                         % (name, li, pair, row + 1, complex(y[row, a]), complex(y[row, bidx]), scale(row)))
             if lo[0] == 'solid' and up[0] == 'liquid':
-                c.check(abs(y[3, a]) <= IFACE_TOL * scale3(y, sl2) + NOISE_FACTOR * nz[3, a], {'clause': 'zero_shear', 'pair': pair, 'side': 'lower'},
+                c.check(nz[3, a] > ILL * scale3(y, sl2) or abs(y[3, a]) <= IFACE_TOL * scale3(y, sl2) + NOISE_FACTOR * nz[3, a], {'clause': 'zero_shear', 'pair': pair, 'side': 'lower'},
                         'type %s: y4 at top of solid layer %d under liquid = %r' % (name, li, complex(y[3, a])))
             if lo[0] == 'liquid' and up[0] == 'solid':
-                c.check(abs(y[3, bidx]) <= IFACE_TOL * scale3(y, sl2) + NOISE_FACTOR * nz[3, bidx], {'clause': 'zero_shear', 'pair': pair, 'side': 'upper'},
+                c.check(nz[3, bidx] > ILL * scale3(y, sl2) or abs(y[3, bidx]) <= IFACE_TOL * scale3(y, sl2) + NOISE_FACTOR * nz[3, bidx], {'clause': 'zero_shear', 'pair': pair, 'side': 'upper'},
                         'type %s: y4 at base of solid layer %d over liquid = %r' % (name, li + 1, complex(y[3, bidx])))
             if lo_static_liq != up_static_liq or (lo_static_liq and up_static_liq and False):
                 # exactly one side is a static liquid: pressure relation on the other side
@@ -219,7 +229,7 @@ def evaluate(case):
                 resid = abs(sum(terms))
                 sc = sum(abs(t) for t in terms) + abs(rl * y[0, idx]) * abs(g[a] - g[bidx]) / IFACE_TOL
                 nterm = nz[1, idx] + rl * g[idx] * nz[0, idx] + rl * nz[4, idx]
-                c.check(np.isfinite(resid) and resid <= IFACE_TOL * sc + NOISE_FACTOR * nterm,
+                c.check(nterm > ILL * sc or (np.isfinite(resid) and resid <= IFACE_TOL * sc + NOISE_FACTOR * nterm),
                         {'clause': 'static_liquid_pressure', 'pair': pair, 'side': 'lower' if up_static_liq else 'upper'},
                         'type %s interface %d (%s): y2 - rho(g y1 - y5) = %.3e, sum|terms| %.3e' % (name, li, pair, resid, sc))
     return c.result()
